@@ -191,6 +191,34 @@ def run(ctx):
                     if v != rt.digest(f_, data3):
                         fails.append({"what": f"{entry}({len(data3)} bytes, {f_}) with one injected read error (short read, then EIO at raw read #{fail_at}) RETURNS {v}, the digest of the bytes is {rt.digest(f_, data3)}", "replay": {"entry": entry, "fault": "short read then EIO", "fail_at": fail_at, "size": len(data3)}})
         dist["fault_injection"] = "short read followed by one EIO at raw read 2/3/5"
+        # ---- "the result depends only on the bytes": the same path hashed again after its bytes changed IN PLACE (same
+        # length, same inode, modification time put back) gives the digest of the new bytes, in the same process
+        fpm = os.path.join(root, "inplace.bin")
+        for size in (1, 4096, chunk + 17):
+            a = rnd.randbytes(size)
+            with open(fpm, "wb") as f:
+                f.write(a)
+            os.utime(fpm, ns=(1_700_000_000_123_456_789, 1_700_000_000_123_456_789))
+            st = os.stat(fpm)
+            first = {f_: Hh.hash_file(fpm, f_) for f_ in ("md5", "xxh64", "c4")}
+            firstm = Hh.multiple_format_hash_file(fpm, ["md5", "sha1"])
+            x1 = rt.run("hash", [fpm, "-h", "md5"])
+            b = bytes([a[0] ^ 0xFF]) + a[1:]
+            with open(fpm, "r+b") as f:
+                f.write(b)
+            os.utime(fpm, ns=(st.st_atime_ns, st.st_mtime_ns))
+            evals += 3
+            for f_ in ("md5", "xxh64", "c4"):
+                got = Hh.hash_file(fpm, f_)
+                if got != rt.digest(f_, b):
+                    fails.append({"what": f"hash_file({f_}) of a {size}-byte file whose first byte was changed in place (same size, inode and modification time) still returns {got}" + (" - the digest of the OLD bytes" if got == first[f_] else "") + f"; the digest of the bytes now in the file is {rt.digest(f_, b)}", "replay": {"entry": "hash_file twice", "size": size, "fmt": f_}})
+            gm = Hh.multiple_format_hash_file(fpm, ["md5", "sha1"])
+            for f_ in ("md5", "sha1"):
+                if gm.get(f_) != rt.digest(f_, b):
+                    fails.append({"what": f"multiple_format_hash_file[{f_}] after an in-place change returns {gm.get(f_)}, the digest of the bytes is {rt.digest(f_, b)}", "replay": {"entry": "multiple_format_hash_file twice", "size": size}})
+            x2 = rt.run("hash", [fpm, "-h", "md5"])
+            if rt.digest("md5", b) not in x2.out:
+                fails.append({"what": f"`hash -h md5` after an in-place change prints {x2.out.strip()[-60:]!r}, the digest of the bytes is {rt.digest('md5', b)}", "replay": {"entry": "hash twice", "size": size}})
         # ---- streaming use of a hasher object: digests may be taken at any time and never disturb the state
         for fmt in ALL_FORMATS:
             for _ in range(ctx.scale(6, 60)):
